@@ -22,7 +22,7 @@ from . import common
 from . import stack
 from .stack import VCLOCK
 from .ldm_common import patch_ldm_time, its_ms, simple_message, make_location, T0_UTC_MS
-from .sched import Scheduler, SchedLock, SchedRLock, Deadlock, explore
+from .sched import Scheduler, SchedLock, SchedRLock, Deadlock, explore, one_switch
 
 PROP = "C16"
 COQ_TARGETS = ["Properties/C16", "Extract/ExC16"]
@@ -858,7 +858,7 @@ def make_world_factory(variant, programs, setup=None):
     return make
 
 
-def run_scenario(ctx, lin, name, variant, programs, bound, max_runs, random_runs, setup=None):
+def run_scenario(ctx, lin, name, variant, programs, bound, max_runs, random_runs, setup=None, sweep=0):
     mk = make_world_factory(variant, programs, setup)
     n = 0
     label = f"{name}[{variant}]"
@@ -896,7 +896,9 @@ def run_scenario(ctx, lin, name, variant, programs, bound, max_runs, random_runs
                                       "final": v.get("observed_final"), "orders_tried": v["orders_tried"]})
         return run, chk
 
-    for sched, nbp in explore(make_run, bound, max_runs, rng=ctx.rng, random_runs=random_runs):
+    import itertools as _it
+    first = one_switch(make_run, len(programs), sweep) if sweep else ()
+    for sched, nbp in _it.chain(first, explore(make_run, bound, max_runs, rng=ctx.rng, random_runs=random_runs)):
         n += 1
         ctx.count(1, "schedules_" + ("pair" if name.startswith("pair_") else name.split("_")[0]) + "_" + variant)
         ctx.nontriv((label, tuple(sched)))
@@ -998,6 +1000,15 @@ MULTI = [
 ]
 
 
+# the second consumer is not registered and has no subscription when the run starts
+SETUP_ONE_CONSUMER = [o for o in SETUP_BASE if o not in (("creg", CONS[1]), ("sub", 51, CONS[1]))]
+MULTI_ONE_CONSUMER = [
+    ("multi1_attend_creg_sub", [["attend"], ["creg", "sub", "ssnap"]]),
+    ("multi1_attend_creg_sub_attend", [["attend", "attend"], ["creg", "sub"], ["ssnap"]]),
+    ("multi1_add_creg_sub", [["add"], ["creg", "sub", "ssnap"]]),          # the reactive service attends inside add
+]
+
+
 def pair_plan():
     out = []
     for i, a in enumerate(PAIR_OPS):
@@ -1054,7 +1065,11 @@ def run(ctx):
                 run_scenario(ctx, lin, name, variant, progs, 2, 12 if quick else 150, 3 if quick else 30)
         for variant in ("Reactive", "Thread"):
             for name, progs in MULTI:
-                run_scenario(ctx, lin, name, variant, progs, 2, 25 if quick else 300, 5 if quick else 60)
+                run_scenario(ctx, lin, name, variant, progs, 2, 25 if quick else 300, 5 if quick else 60,
+                             sweep=0 if quick else 400)
+            for name, progs in MULTI_ONE_CONSUMER:
+                run_scenario(ctx, lin, name, variant, progs, 2, 20 if quick else 300, 5 if quick else 60,
+                             setup=SETUP_ONE_CONSUMER, sweep=25 if quick else 400)
         if not getattr(ctx, "proof_ok", True) and not ctx.failures:
             # an obligation on the regenerated lock summary no longer checks: search the pair scenarios much deeper for a
             # schedule on which the real LDM misbehaves, so that the violation comes with a concrete replay
